@@ -8,6 +8,22 @@ seeds = sorted(d for d in os.listdir(f'{V}/seeded') if os.path.isdir(f'{V}/seede
 if len(sys.argv) > 1:
     seeds = [s for s in seeds if re.search(sys.argv[1], s)]
 
+
+def run_all(repo_dir, props):
+    """{prop: (exit code, [output lines])} from ONE model load (tools/check_all.py)"""
+    r = subprocess.run(['python3', f'{V}/tools/check_all.py', '--repo', repo_dir] + list(props), capture_output=True, text=True)
+    res, cur = {}, []
+    for l in r.stdout.splitlines():
+        if l.startswith('###RESULT '):
+            p, ex = l.split()[1], int(l.split('exit=')[1])
+            res[p] = (ex, cur)
+            cur = []
+        else:
+            cur.append(l)
+    for p in props:
+        res.setdefault(p, (2, ['ANALYSIS-ERROR check_all produced no result: ' + (r.stderr or '')[-200:]]))
+    return res
+
 def one(seed):
     d = tempfile.mkdtemp(prefix='sm.', dir='/tmp')
     try:
@@ -17,11 +33,10 @@ def one(seed):
         if r.returncode:
             return seed, {'error': 'patch does not apply: ' + r.stderr.decode()[:200]}
         out = {}
-        for p in props:
-            r = subprocess.run([f'{V}/check', p, '--repo', f'{d}/r', '--no-evidence'], capture_output=True, text=True)
-            if r.returncode:
-                rules = sorted({l.split('rule=')[1].split(' ')[0] for l in r.stdout.splitlines() if l.startswith('FINDING:')})
-                out[p] = {'exit': r.returncode, 'rules': rules}
+        for p, (code, lines) in run_all(f'{d}/r', props).items():
+            if code:
+                rules = sorted({l.split('rule=')[1].split(' ')[0] for l in lines if l.startswith('FINDING:')})
+                out[p] = {'exit': code, 'rules': rules}
         return seed, out
     finally:
         shutil.rmtree(d, ignore_errors=True)
